@@ -12,6 +12,8 @@ case: ( trigger roller pre a0 ops )   -- see harness/src/rolling_c05.rs
   ops    : [0, [chunk...]] | [1, a] | [2, [[rec...]...]]  (burst of threads) | [3, t] (set the hook clock)
            | [4, a] hot restart (old instance stays alive) | [5, [chunk...]] append through the old instance
            | [6] drop the old instance | [7, [chunk...]] append while the roller is set to fail
+           | [8] newest archive slot becomes a symlink to /dev/full (real ENOSPC on the archive write) | [9] heal;
+             appends between 8 and 9 are, for the model and the oracles, appends with a failing roller (kind 7)
 impl/model result: one entry per op (entry 0 = initial build):
   [ [[shown, disk, rolled]...], [[kind, idx, bytes]...], errors, (burst: order) ]
 The model cannot predict a thread schedule: `model_lines` replaces each burst by
@@ -95,13 +97,26 @@ def time_script(case):
     return script
 
 
+def effective_ops(ops):
+    """appends inside an archive-fault window [8]..[9] behave as appends with a failing roller"""
+    out, fault = [], False
+    for o in ops:
+        if o[0] == 8:
+            fault = True
+        elif o[0] == 9:
+            fault = False
+        out.append([7, o[1]] if (fault and o[0] == 0) else o)
+    return out
+
+
 def flatten_for_model(case, impl):
     trig, roller, pre, a0, ops = case
+    ops = effective_ops(ops)
     if trig[0] == 3:
         trig = [2, 1, time_script(case)]
     out = []
     for i, o in enumerate(ops):
-        if o[0] in (3, 6):
+        if o[0] in (3, 6, 8, 9):
             continue
         if o[0] == 4:
             out.append([1, o[1]])      # hot restart: for the files, a build on the same path
@@ -137,7 +152,7 @@ def model_lines(ctx, cases, lines, impl_lines):
     vc = ctx["vc"]
     out = []
     for c, line, il in zip(cases, lines, impl_lines):
-        if c[0][0] == 3 or any(o[0] in (2, 3, 4, 5, 6) for o in c[4]):
+        if c[0][0] == 3 or any(o[0] in (2, 3, 4, 5, 6, 8, 9) for o in c[4]):
             try:
                 iv = vc.parse(il)
             except Exception:
@@ -182,6 +197,7 @@ def compare(case, impl, model):
         return "impl result has the wrong shape (panic/abort?): %r" % (impl if not isinstance(impl, list) else len(impl),)
     if not isinstance(model, list):
         return "model result has the wrong shape"
+    ops = effective_ops(ops)
     keep, base = keep_of(roller), base_of(roller)
     hot = any(o[0] == 4 for o in ops)      # overlapping instances: each LogWriter.len is legitimately stale
     bg = bg_of(roller)
@@ -202,7 +218,7 @@ def compare(case, impl, model):
             return "op %d: malformed consultation entry" % i
         o = ops[i - 1] if i > 0 else [1, a0]
         # --- ops without an appender call
-        if o[0] in (3, 6):
+        if o[0] in (3, 6, 8, 9):
             if consults or errors:
                 return "op %d: op without appender call produced consultations/errors" % i
             if snap != prev_snap:
@@ -360,6 +376,7 @@ def classify(case):
     extra += "+restart" if any(o[0] == 1 for o in ops) else ""
     extra += "+hot-restart" if any(o[0] == 4 for o in ops) else ""
     extra += "+failing-roll" if any(o[0] == 7 for o in ops) else ""
+    extra += "+archive-ENOSPC" if any(o[0] == 8 for o in ops) else ""
     return "%s/%s%s" % (t, r, extra)
 
 
@@ -387,6 +404,10 @@ def describe(case):
             return "append %d bytes through the old instance" % len(rec_of(o[1]))
         if o[0] == 6:
             return "old instance dropped"
+        if o[0] == 8:
+            return "newest archive slot := symlink to /dev/full"
+        if o[0] == 9:
+            return "archive slot healed"
         if o[0] == 7:
             return "append %d bytes in %d chunk(s), roller set to fail" % (len(rec_of(o[1])), len(o[1]))
         return "burst %r" % ([[len(rec_of(r_)) for r_ in t_] for t_ in o[1]],)
